@@ -112,6 +112,19 @@ def run_case(ck, desc):
             k = int(np.argmax(np.abs(va - ref) / np.abs(ref))) if va.shape == arr.shape else -1
             ck.violation(f"ordering-holds-on-arrays-with-repeated-pressures.{name}", {"p": float(arr[k]), "array": float(va[k]) if k >= 0 else None, "scalar": float(ref[k]) if k >= 0 else None, "above_pb": bool(arr[k] > pb)}, desc)
     ck.count("arrays_with_repeated_pressures", 3)
+    if int((T * 31.7 + api * 17.3 + gg * 1000.3) * 1000) % 40 == 0:
+        # one call on a very long array (a field-wide history: 70 000 and 140 001 pressures through the
+        # bubble point): positive compressibility and the ordering of Bo hold for the LAST elements too
+        for n_long in (70000, 140001):
+            big = np.linspace(min(15.0, 0.5 * pb), 2.5 * pb, n_long)
+            bo_b = np.asarray(fns["Bo"](big), dtype=float)
+            above = big > pb
+            co_b = np.asarray(oil.oil_compressibility_undersat_Spivey(T, big[above], *a), dtype=float)
+            tail = slice(-5, None)
+            ref_tail = np.array([float(fns["Bo"](float(x))) for x in big[tail]])
+            if not np.all(co_b > 0) or np.any(np.diff(bo_b[above]) >= 0) or float(np.max(np.abs(bo_b[tail] - ref_tail) / ref_tail)) > 1e-12:
+                ck.violation("ordering-holds-on-very-long-arrays", {"n": n_long, "nonpositive_compressibilities": int(np.sum(~(co_b > 0))), "Bo_not_falling_steps": int(np.sum(np.diff(bo_b[above]) >= 0))}, desc)
+        ck.count("very_long_arrays", 2)
     # 5. viscosity falls with pressure below p_b; positive everywhere
     mu_lo = np.array([float(fns["mu_o"](p)) for p in lo])
     mu_hi = np.array([float(fns["mu_o"](p)) for p in hi])
